@@ -215,6 +215,28 @@ fn observe(c: &Chain, want: &[u8]) -> Option<(&'static str, String)> {
     if got != want || d.remaining() != 0 || !d.chunk().is_empty() {
         return Some(("drain", format!("draining one byte at a time yields {} (then remaining() = {}) instead of {}", hex(&got), d.remaining(), hex(want))));
     }
+    // the methods `Buf` provides on top of these (a type may override any of them): taken from the front, and consumed
+    for k in [want.len() / 2, want.len()] {
+        let mut d = c.clone();
+        let b = d.copy_to_bytes(k);
+        if b.as_ref() != &want[..k] || d.remaining() != want.len() - k || d.len() != want.len() - k {
+            return Some(("buf-copy_to_bytes", format!("copy_to_bytes({k}) = {} and leaves remaining() = {}, len() = {} of {}", hex(b.as_ref()), d.remaining(), d.len(), hex(want))));
+        }
+        let mut d = c.clone();
+        let mut buf = vec![0xeeu8; k];
+        d.copy_to_slice(&mut buf);
+        let rest: Vec<u8> = { let ch: &[CowBytes<'static>] = d.as_ref(); ch.iter().flat_map(|x| x.as_ref().iter().copied()).collect() };
+        if buf != want[..k] || rest != want[k..] {
+            return Some(("buf-copy_to_slice", format!("copy_to_slice([{k}]) = {} and leaves {} of {}", hex(&buf), hex(&rest), hex(want))));
+        }
+    }
+    let mut io = [std::io::IoSlice::new(&[]); 16];
+    let n = c.chunks_vectored(&mut io);
+    let cat: Vec<u8> = io[..n].iter().flat_map(|x| x.iter().copied()).collect();
+    // (the contract lets an implementation fill fewer slices than it could: a non-empty prefix is all that is owed)
+    if !want.starts_with(&cat) || cat.is_empty() != want.is_empty() || io[..n].iter().any(|x| x.is_empty()) {
+        return Some(("buf-chunks_vectored", format!("chunks_vectored() fills {n} slices holding {} of {}", hex(&cat), hex(want))));
+    }
     None
 }
 
@@ -698,6 +720,43 @@ fn cow_accessors(c: &CowBytes<'_>, s: &[u8]) -> Vec<(&'static str, String)> {
         d.advance(1);
     }
     chk("buf-drain", got == s && d.remaining() == 0 && d.chunk().is_empty(), format!("Buf drain = {}", hex(&got)));
+    // the methods `Buf` provides on top of chunk/advance/remaining (a type may override any of them): each takes its
+    // bytes from the front AND consumes them, like `&[u8]` does
+    for k in 0..=s.len() {
+        let mut d = c.clone();
+        let got = d.copy_to_bytes(k);
+        chk("buf-copy_to_bytes", got.as_ref() == &s[..k] && d.as_ref() == &s[k..] && d.remaining() == s.len() - k && d.len() == s.len() - k, format!("copy_to_bytes({k}) = {} and leaves {} (remaining() = {})", hex(got.as_ref()), hex(d.as_ref()), d.remaining()));
+        let mut d = c.clone();
+        let mut buf = vec![0xeeu8; k];
+        d.copy_to_slice(&mut buf);
+        chk("buf-copy_to_slice", buf == s[..k] && d.as_ref() == &s[k..] && d.remaining() == s.len() - k, format!("copy_to_slice([{k}]) = {} and leaves {}", hex(&buf), hex(d.as_ref())));
+        let mut d = c.clone();
+        let got = (&mut d).take(k).copy_to_bytes(k);
+        chk("buf-take-copy_to_bytes", got.as_ref() == &s[..k] && d.as_ref() == &s[k..], format!("take({k}).copy_to_bytes({k}) = {} and leaves {}", hex(got.as_ref()), hex(d.as_ref())));
+        let mut d = c.clone();
+        let mut out = Vec::new();
+        let r = std::io::Read::read_to_end(&mut (&mut d).take(k).reader(), &mut out);
+        chk("buf-reader", r.is_ok() && out == s[..k] && d.as_ref() == &s[k..], format!("take({k}).reader().read_to_end = {r:?} / {} and leaves {}", hex(&out), hex(d.as_ref())));
+    }
+    if !s.is_empty() {
+        let mut d = c.clone();
+        let b = d.get_u8();
+        chk("buf-get_u8", b == s[0] && d.as_ref() == &s[1..], format!("get_u8() = {b:02x} and leaves {}", hex(d.as_ref())));
+    }
+    if s.len() >= 2 {
+        let mut d = c.clone();
+        let v = d.get_u16();
+        chk("buf-get_u16", v == u16::from_be_bytes([s[0], s[1]]) && d.as_ref() == &s[2..], format!("get_u16() = {v:04x} and leaves {}", hex(d.as_ref())));
+    }
+    {
+        let mut io = [std::io::IoSlice::new(&[]); 2];
+        let n = c.chunks_vectored(&mut io);
+        let cat: Vec<u8> = io[..n].iter().flat_map(|x| x.iter().copied()).collect();
+        chk("buf-chunks_vectored", cat == s && (n == 0) == s.is_empty(), format!("chunks_vectored() fills {n} slices: {}", hex(&cat)));
+        let mut e = c.clone().chain(c.clone());
+        let both = e.copy_to_bytes(2 * s.len());
+        chk("buf-chain", both.as_ref() == [s, s].concat() && !e.has_remaining(), format!("chain(self).copy_to_bytes = {}", hex(both.as_ref())));
+    }
     // io::Read: one call copies min(buf, len) bytes from the front
     for cap in [0usize, 1, s.len(), s.len() + 1] {
         let mut d = c.clone();
